@@ -110,6 +110,33 @@ CLAIMS: dict[str, tuple[str, str, str, str]] = {
         "Lean 4 proof (renderer as pieces, escape lemma, vocabulary lifting) + differential rendering + output lexer",
         "§6 C04",
     ),
+    "C05": (
+        "FULL on the model for: encode_range (mdurl.encode, transcribed exactly, emits only URL-safe ASCII for "
+        "every input), validate_sound + api (a URL-safe string accepted by validateLink, read the way a browser "
+        "reads it — controls/spaces stripped, tab/LF/CR dropped, scheme case-insensitive — has no blacklisted "
+        "scheme unless it is a whitelisted data:image URL, for every reformat step in front of encode), T1 "
+        "obligations dangerous_covered/good_kinds/default_chars_safe over tables extracted from the live "
+        "regexes. PARTIAL: 'every href/src the parser stores went through normalizeLink+validateLink' is not a "
+        "theorem of an inline-parser model (oracle on tokens and rendered attributes + advisory AST scan); the "
+        "linkifier clause cannot be run (dependency absent). Tie: encode per code point and on %xx strings, "
+        "validateLink on normalised strings, browserScheme twin.",
+        NOTE + "mdurl.parse/format and punycode are an external parameter (theorems hold for every value).",
+        "Lean 4 proof (range of the encoder, validator vs browser scheme reading) + differential correspondence",
+        "§6 C05",
+    ),
+    "C19": (
+        "FULL on the model for the shape part: replacePass_shape/replacements_shape (every substitution function), "
+        "replacePass_autolink, smart_frame + smartInline_shape over a faithful transcription of process_inlines "
+        "(quote stack, level truncation, position bookkeeping, three replaceAt sites): for every quotes option "
+        "and character classification only `text` tokens outside autolinks change, and only in content; "
+        "replaceAt_spec; T1 obligation text_join_last. PARTIAL: 'smartquotes substitutes quote characters in "
+        "place and nothing else' (QuoteRel) is decided by a DP oracle, not proved. Tie: smartInline vs real "
+        "process_inlines under quote options of length 0-4; replace_scoped/replace_rare traversal with stubbed "
+        "regexes.",
+        NOTE + "The regexes of replacements.py are parameters of the model.",
+        "Lean 4 proof (frame invariant over the quote-stack loop) + differential correspondence + DP oracle",
+        "§6 C19",
+    ),
 }
 
 PENDING_REASON = "check under construction in this session (Lean model + theorems not yet committed); not claimed until its check exists"
